@@ -300,6 +300,9 @@ func (w world) RunCase(t *tape.Tape, st *super.Stats) *super.Violation {
 	r0 := compileOnce(texts, canonOrder, fc, nil, skipUnknown, true)
 	inc("compiles")
 	inc("verdict0:" + r0.verdict())
+	if super.Noting() {
+		super.Note(r0.verdict(), fmt.Sprint(r0.err), fmt.Sprint(super.Hash(r0.canon)))
+	}
 	if r0.parseErr != nil {
 		// generator produced text the parser rejects: not this property's business
 		inc("gen:parse_rejected")
@@ -369,6 +372,9 @@ func (w world) RunCase(t *tape.Tape, st *super.Stats) *super.Violation {
 		}
 		simrt.Order = nil
 		inc("compiles")
+		if super.Noting() {
+			super.Note(rj.verdict(), fmt.Sprint(rj.err), fmt.Sprint(super.Hash(rj.canon)), fmt.Sprint(super.Hash(rj.strict)), strings.Join(rec.applied, ";"))
+		}
 		if st != nil {
 			st.Add("fault:map-order-permutation", int64(len(rec.applied)))
 			if fmt.Sprint(po) != fmt.Sprint(canonOrder) {
